@@ -228,6 +228,22 @@ def scaleKeys {α : Type} (A : Arith α) (k : Scaler) (buckets min max : Int) : 
     A.trunc (unmapVal A k (A.add (A.div (A.mul (A.sub maxf minf) (A.ofInt i)) (A.ofInt (buckets - 1))) minf))
   vals.foldl (fun acc v => if acc.isEmpty || acc.getLast? != some v then acc ++ [v] else acc) []
 
+/-- `unicode.ToLower` as far as it can matter for the scaler names: ASCII upper case, and U+0130 (İ, whose lower case
+is `i` in Go's tables); U+212A (Kelvin sign) lowers to `k`, which no name contains; every other rune stays outside
+ASCII letters -/
+def lowerRuneName (r : Nat) : Nat := if 65 ≤ r ∧ r ≤ 90 then r + 32 else if r = 0x130 then 105 else if r = 0x212A then 107 else r
+
+def asciiRunes (s : String) : List Nat := s.toList.map Char.toNat
+
+/-- `termscaler.ScalerByName(name)` (the `--scale` flag of every renderer): `switch strings.ToLower(name)`; `none` is
+`ScalerNull, false` (the commands then fail with "invalid scaler") -/
+def scalerByName (name : Bytes) : Option Scaler :=
+  let l := (decodeUtf8 name).map lowerRuneName
+  if l = asciiRunes "linear" ∨ l = asciiRunes "lin" ∨ l = [] then some .linear
+  else if l = asciiRunes "log10" ∨ l = asciiRunes "log" then some .log10
+  else if l = asciiRunes "log2" then some .log2
+  else none
+
 /-! ## termunicode -/
 
 def fullBlock : Nat := 0x2588
